@@ -13,7 +13,8 @@ package authboss
 //@        ite(len(r.URL.RawQuery) != 0, "?" ++ r.URL.RawQuery, "")
 //@
 //@ func MountedMiddleware2#1#1
-//@   property C08
+//@   property C08 C17
+//@   ensures[C17] no_secret_leak: secrets_clean
 //@   requires 0 <= reqs && reqs <= 3
 //@   -- the wrapped handler runs only with the requirements met and a loaded user in the context
 //@   ensures admit_only_if: each Next.ServeHTTP(_, _, _, ?cu) => reqs_ok(r, reqs) && cu != nil &&
@@ -135,3 +136,11 @@ package authboss
 //@        (each CS.ReadState(?rw, _) -> (?st, ?e) => (e == nil && st != nil && rw == a.Config.Storage.CookieState && rw != a.Config.Storage.SessionState) ==>
 //@            (ctxcookie(result.0) == st && emits MemWrite(?p, _, ?v) :: suffixof(".cookieState", p) && v == st)))
 //@   ensures read_error_outcome: each CS.ReadState(_, _) -> (_, ?e) => e != nil ==> result.1 == e
+//@
+//@ func (*Authboss).LoadClientStateMiddleware#1
+//@   property C11 C17
+//@   -- the wrapped handler gets the flushing writer and the request that carries the state
+//@   -- read at the start; a read failure answers 500 without running it
+//@   ensures[C11] wraps_writer: each Next.ServeHTTP(_, ?w2, _) => w2 != w
+//@   ensures[C11] read_failure_500: (each CS.ReadState(_, _) -> (_, ?e) => e != nil ==> (after WriteHeader(_, 500) && !emits Next.ServeHTTP(_, _, _)))
+//@   ensures[C17] no_secret_leak: secrets_clean
